@@ -11,6 +11,7 @@ import (
 	realos "os"
 	"path"
 	"sort"
+	"strings"
 	"syscall"
 )
 
@@ -503,22 +504,24 @@ func Rename(oldpath, newpath string) error {
 	if np == nil || !np.dir {
 		return fail(syscall.ENOTDIR)
 	}
+	if on.dir && strings.HasPrefix(clean(newpath)+"/", clean(oldpath)+"/") && clean(newpath) != clean(oldpath) {
+		return fail(syscall.EINVAL) // a directory cannot be moved into itself
+	}
 	if f.devOf(clean(oldpath)) != f.devOf(clean(newpath)) {
 		return fail(syscall.EXDEV)
 	}
 	if nn != nil {
+		if nn.dir {
+			// like package os on unix: "If newpath already exists and is not
+			// a directory, Rename replaces it" - an existing directory is refused
+			return fail(syscall.EEXIST)
+		}
 		if nn == on {
 			g.leave(0, nil)
 			return nil
 		}
-		if nn.dir && !on.dir {
-			return fail(syscall.EISDIR)
-		}
-		if !nn.dir && on.dir {
+		if on.dir {
 			return fail(syscall.ENOTDIR)
-		}
-		if nn.dir && len(nn.kids) > 0 {
-			return fail(syscall.ENOTEMPTY)
 		}
 		nn.nlink--
 	}
